@@ -51,6 +51,7 @@
 #include "plugin.h"
 #include "burl.h"
 #include "http_date.h"
+#include "http_kv.h"
 #include "ls-hpack/lshpack.c"      /* static lshpack internals */
 #include <nghttp2/nghttp2.h>
 
@@ -664,14 +665,19 @@ static void put_frame_hdr(unsigned char *p, uint32_t len, int type, int flags, u
 }
 
 static void put_view(const request_st *r) {
-    printf(";v=%d|%d|", r->http_status, (int)r->http_method);
+    printf(";v=%d|", r->http_status);
+    if (r->http_method > HTTP_METHOD_UNSET) { const buffer *mb = http_method_buf(r->http_method); ltv_puthex(mb->ptr, buffer_clen(mb)); }
+    else fputc('_', stdout);
+    fputc('|', stdout);
     ltv_puthex(r->target.ptr, buffer_clen(&r->target)); fputc('|', stdout);
-    if (r->http_host) ltv_puthex(r->http_host->ptr, buffer_clen(r->http_host)); else fputc('~', stdout);
+    if (r->http_host) ltv_puthex(r->http_host->ptr, buffer_clen(r->http_host)); else fputc('_', stdout);
     printf("|%lld|", (long long)r->reqbody_length);
     if (0 == r->rqst_headers.used) fputc('-', stdout);
     for (uint32_t i = 0; i < r->rqst_headers.used; ++i) {
         const data_string * const ds = (data_string *)r->rqst_headers.data[i];
         if (i) fputc(',', stdout);
+        /* the id a header is filed under must be the id of its name (handlers look it up by id) */
+        if (ds->ext != (int)http_header_hkey_get(ds->key.ptr, buffer_clen(&ds->key))) fputs("IDBAD", stdout);
         printf("%d.", ds->ext);
         ltv_puthex(ds->key.ptr, buffer_clen(&ds->key)); fputc('=', stdout);
         ltv_puthex(ds->value.ptr, buffer_clen(&ds->value));
@@ -743,7 +749,8 @@ static void op_req(void) {
             int rstcode = -1;
             for (size_t o = 0; o + 9 <= wl; ) {
                 const uint32_t fl = ((uint32_t)w[o] << 16) | ((uint32_t)w[o+1] << 8) | w[o+2];
-                if (w[o+3] == H2_FTYPE_RST_STREAM && fl == 4 && o + 13 <= wl && rstcode < 0)
+                const uint32_t fid = ((uint32_t)w[o+5] << 24) | ((uint32_t)w[o+6] << 16) | ((uint32_t)w[o+7] << 8) | w[o+8];
+                if (w[o+3] == H2_FTYPE_RST_STREAM && fl == 4 && o + 13 <= wl && rstcode < 0 && fid == id)
                     rstcode = (int)(((uint32_t)w[o+9] << 24) | ((uint32_t)w[o+10] << 16) | ((uint32_t)w[o+11] << 8) | w[o+12]);
                 o += 9 + fl;
             }
@@ -751,18 +758,19 @@ static void op_req(void) {
             request_st *r = find_stream(h2c, id);
             SEP();
             if (deferred && h2c->sent_goaway <= 0) fputs("defer", stdout);
-            else if (r && !had) {
-                printf("new:%u", id);
-                put_view(r);
-                if (!keep) { r->http_status = 0; h2_retire_stream(r, &g_con); }
-            }
+            else if (r && !had) printf("new:%u", id);
             else if (h2c->n_discarded_headers != nd0) {
                 if (rstcode >= 0) printf("disc:%u:%d", id, rstcode); else printf("disc:%u:-", id);
             }
             else if (had) printf("trl:%u", id);      /* trailers decoded (with or without HPACK error) */
             else fputs("none", stdout);
-            if (h2c->sent_goaway > 0) { printf("!%d", h2c->sent_goaway); break; }
-            if (h2c->sent_goaway < 0 && 0 == ga0) fputc('~', stdout);
+            if (h2c->sent_goaway > 0) printf("!%d", h2c->sent_goaway);
+            else if (h2c->sent_goaway < 0 && 0 == ga0) fputc('~', stdout);
+            if (r && !had && !deferred) {          /* (the view comes last in the token) */
+                put_view(r);
+                if (!keep) { r->http_status = 0; h2_retire_stream(r, &g_con); }
+            }
+            if (h2c->sent_goaway > 0) break;
         }
         else { SEP(); fputs("bad-op", stdout); break; }
     }
